@@ -295,5 +295,195 @@ def regenerate():
     return facts
 
 
+
+
+# ====================================================================== in-place sites (C19)
+ALLOC_CALLS = {
+    "np.zeros", "np.zeros_like", "np.ones", "np.ones_like", "np.full", "np.array", "np.eye", "np.empty", "np.vstack", "np.concatenate",
+    "np.repeat", "np.sqrt", "np.where", "np.sum", "np.clip", "np.log", "np.exp", "np.power", "np.multiply", "np.maximum", "np.linalg.inv",
+    "np.linalg.solve", "np.outer", "np.dot", "np.matmul", "np.einsum", "np.bincount", "np.min", "np.argmin", "np.mean", "np.logaddexp.reduce",
+    "copy.deepcopy", "GMMStats", "IVectorStats", "np.random.normal", "da.vstack", "k_init", "list", "dict", "float", "int", "sum",
+    "numerical_module.zeros", "numerical_module.array", "numerical_module.mean", "numerical_module.cov", "cholesky", "inv", "pinv",
+    "scipy.spatial.distance.cdist", "logaddexp_reduce", "np.full_like",
+}
+VIEW_CALLS = {"np.asarray", "np.atleast_2d", "np.atleast_1d", "np.swapaxes", "np.transpose", "np.diagonal", "np.reshape", "np.squeeze",
+              "np.broadcast_to", "np.expand_dims", "np.ravel"}
+
+
+def _dotted(node):
+    if isinstance(node, ast.Name):
+        return node.id
+    if isinstance(node, ast.Attribute):
+        b = _dotted(node.value)
+        return None if b is None else b + "." + node.attr
+    return None
+
+
+def _root(node):
+    while isinstance(node, (ast.Subscript, ast.Attribute)):
+        node = node.value
+    return node.id if isinstance(node, ast.Name) else None
+
+
+class _FnInfo:
+    def __init__(self, fn):
+        self.fn = fn
+        self.params = [a.arg for a in fn.args.args + fn.args.kwonlyargs] + ([fn.args.vararg.arg] if fn.args.vararg else [])
+        self.assigns = {}
+        for node in ast.walk(fn):
+            if isinstance(node, ast.Assign):
+                for t in node.targets:
+                    self._bind(t, node.value)
+            elif isinstance(node, ast.AnnAssign) and node.value is not None:
+                self._bind(node.target, node.value)
+            elif isinstance(node, (ast.For, ast.comprehension)):
+                self._bind(node.target, ast.Subscript(value=node.iter, slice=ast.Constant(0), ctx=ast.Load()))
+            elif isinstance(node, ast.NamedExpr):
+                self._bind(node.target, node.value)
+
+    def _bind(self, target, value):
+        if isinstance(target, ast.Name):
+            self.assigns.setdefault(target.id, []).append(value)
+        elif isinstance(target, (ast.Tuple, ast.List)):
+            for k, e in enumerate(target.elts):
+                self._bind(e, ast.Subscript(value=value, slice=ast.Constant(k), ctx=ast.Load()))
+
+    def expr_prov(self, e, depth=0):
+        """'fresh' | 'param' | 'self' | 'unknown'"""
+        if depth > 6:
+            return "unknown"
+        if isinstance(e, (ast.BinOp, ast.UnaryOp, ast.Compare, ast.BoolOp, ast.Constant, ast.List, ast.ListComp, ast.Tuple, ast.Dict,
+                          ast.GeneratorExp, ast.JoinedStr)):
+            return "fresh"
+        if isinstance(e, ast.IfExp):
+            a, b = self.expr_prov(e.body, depth + 1), self.expr_prov(e.orelse, depth + 1)
+            return a if a == b else ("param" if "param" in (a, b) else "unknown")
+        if isinstance(e, ast.Call):
+            name = _dotted(e.func)
+            if name in ALLOC_CALLS:
+                return "fresh"
+            if name in VIEW_CALLS and e.args:
+                return self.expr_prov(e.args[0], depth + 1)
+            if name and name.startswith("self.") and name.split(".")[-1] in FRESH_INTERNAL:
+                return "fresh"
+            if name in ("self.update_z", "self.update_y"):      # returns its latent_z / latent_y argument
+                want = "latent_z" if name.endswith("z") else "latent_y"
+                for kw in e.keywords:
+                    if kw.arg == want:
+                        return self.expr_prov(kw.value, depth + 1)
+                return "unknown"
+            if isinstance(e.func, ast.Attribute) and e.func.attr in ("copy", "sum", "mean", "flatten", "any", "transpose_copy"):
+                return "fresh"
+            return "unknown"
+        if isinstance(e, ast.Name):
+            if e.id == "self":
+                return "self"
+            if e.id in self.assigns:
+                ps = {self.expr_prov(v, depth + 1) for v in self.assigns[e.id]}
+                if ps == {"fresh"}:
+                    return "fresh"
+                if "param" in ps:
+                    return "param"
+                if ps == {"self"}:
+                    return "self"
+                return "unknown"
+            if e.id in self.params:
+                return "param"
+            return "unknown"
+        if isinstance(e, (ast.Subscript, ast.Attribute)):
+            return self.expr_prov(e.value, depth + 1)
+        return "unknown"
+
+
+FRESH_INTERNAL = set()
+
+
+def _returns_fresh(fn):
+    info = _FnInfo(fn)
+    rets = [n.value for n in ast.walk(fn) if isinstance(n, ast.Return) and n.value is not None]
+    if not rets:
+        return False
+    for rv in rets:
+        vals = rv.elts if isinstance(rv, ast.Tuple) else [rv]
+        for v in vals:
+            if info.expr_prov(v) != "fresh":
+                return False
+    return True
+
+
+def inplace_sites():
+    sites = []
+    fns = []
+    for fname in ["gmm.py", "kmeans.py", "factor_analysis.py", "ivector.py", "linear_scoring.py", "utils.py", "wccn.py", "whitening.py"]:
+        tree = _parse(fname)
+        for node in ast.walk(tree):
+            if isinstance(node, ast.ClassDef):
+                for sub in node.body:
+                    if isinstance(sub, ast.FunctionDef):
+                        fns.append((fname, node.name + "." + sub.name, sub))
+            elif isinstance(node, ast.FunctionDef) and node in tree.body:
+                fns.append((fname, node.name, node))
+    # internal helpers that provably return fresh arrays (two rounds so that helpers may use helpers)
+    for _ in range(2):
+        for fname, qual, fn in fns:
+            if _returns_fresh(fn):
+                FRESH_INTERNAL.add(qual.split(".")[-1])
+    for fname, qual, fn in fns:
+        info = _FnInfo(fn)
+        for node in ast.walk(fn):
+            tgt = None
+            if isinstance(node, ast.Call) and _dotted(node.func) == "functools.reduce" and node.args \
+                    and _dotted(node.args[0]) == "operator.iadd" and len(node.args) >= 2:
+                # reduce(iadd, xs) updates xs[0] in place
+                sites.append((fname[:-3] + ":" + qual, "reduce(iadd, %s)" % ast.unparse(node.args[1]), info.expr_prov(node.args[1])))
+                continue
+            if isinstance(node, ast.AugAssign):
+                tgt = node.target
+            elif isinstance(node, ast.Assign):
+                for t in node.targets:
+                    if isinstance(t, ast.Subscript):
+                        tgt = t
+            if tgt is None:
+                continue
+            root = _root(tgt)
+            text = ast.unparse(tgt)
+            if root is None:
+                prov = "unknown"
+            elif root == "self":
+                prov = "self"
+            else:
+                base = tgt
+                while isinstance(base, ast.Subscript):
+                    base = base.value
+                prov = info.expr_prov(base)
+            sites.append((fname[:-3] + ":" + qual, text, prov))
+    return sorted(set(sites))
+
+
+_old_extract = extract
+
+
+def extract():  # noqa: F811
+    facts = _old_extract()
+    try:
+        facts["inplace_sites"] = inplace_sites()
+        facts["fresh_internal"] = sorted(FRESH_INTERNAL)
+    except Exception as e:
+        facts["error"] = repr(e)
+        facts["inplace_sites"] = [("?", "?", "unknown")]
+    return facts
+
+
+_old_render = render
+
+
+def render(facts):  # noqa: F811
+    text = _old_render(facts)
+    sites = facts.get("inplace_sites", [("?", "?", "unknown")])
+    text += "Definition inplace_sites : list (string * (string * string)) := [%s].\n" % (
+        ";\n  ".join("(%s, (%s, %s))" % (coq_str(a), coq_str(b), coq_str(c)) for a, b, c in sites))
+    return text
+
+
 if __name__ == "__main__":
     print(json.dumps(regenerate(), indent=1))
